@@ -62,6 +62,8 @@ struct Medium {
             fault_fired = true; c->faults_fired++;
             switch (fault.kind) {
             case 1: COUNT("fault.medium_call_fails"); log.push_back(Access{write, addr, n, 0}); c->ev(write ? EV_MEDIUM_WR : EV_MEDIUM_RD, addr, n, 0); return 0;
+            case 5: COUNT("fault.medium_call_fails_with_error_sentinel"); log.push_back(Access{write, addr, n, 0}); c->ev(write ? EV_MEDIUM_WR : EV_MEDIUM_RD, addr, n, 1);
+                    return fault.arg == 1 ? n + 1 : (size_t)-1;   // a driver that reports failure with (size_t)-1 (or a nonsensical count beyond what was asked): nothing was transferred
             case 2: { size_t m = (size_t)(fault.arg < 0 ? 0 : fault.arg); if (m >= n) m = n ? n - 1 : 0; todo = m; COUNT("fault.medium_short_transfer"); break; }
             case 3: COUNT("fault.crash_before_call"); crashed = true; c->ev(EV_NOTE, 3, k, 0); c->budget_armed = false; longjmp(c->escape, 2);
             case 4:
@@ -252,7 +254,7 @@ struct PsHarness : Harness {
             Json o = gen_op(r, N, prop == "C10");
             const std::string k = o.gets("op");
             if (prop == "C10" && r.chance(1, 8) && k != "restart" && k != "bitrot") { Json ij = Json::arr(); ij.push((long long)r.below(8)); ij.push((long long)r.below(1 << 20)); o["intrude"] = ij; }
-            if (prop == "C10" && r.chance(1, 8) && k != "restart" && k != "bitrot") { Json f = Json::arr(); f.push((long long)r.below(6)); f.push((long long)(1 + r.below(2))); f.push((long long)r.range(1, 3)); o["fault"] = f; }
+            if (prop == "C10" && r.chance(1, 8) && k != "restart" && k != "bitrot") { Json f = Json::arr(); f.push((long long)r.below(6)); f.push((long long)(r.chance(1, 4) ? 5 : 1 + r.below(2))); f.push((long long)r.range(1, 3)); o["fault"] = f; }
             ops.push(o);
         }
         p["ops"] = ops;
@@ -374,7 +376,7 @@ struct PsHarness : Harness {
                 // the failed operation itself is C11's subject; here the session simply goes on (retry, other operations) and
                 // everything after it is judged as usual, starting from whatever the failed call left on the medium.
                 const Json &fj = o.get("fault");
-                W.med.fault.at = fj.ati(0, 0); W.med.fault.kind = fj.ati(1, 1) == 2 ? 2 : 1; W.med.fault.arg = fj.ati(2, 1);
+                W.med.fault.at = fj.ati(0, 0); W.med.fault.kind = fj.ati(1, 1) == 2 ? 2 : (fj.ati(1, 1) == 5 ? 5 : 1); W.med.fault.arg = fj.ati(2, 1);
                 OpResult RF = call_op(W, o);
                 bool fired = W.med.fault_fired;
                 W.med.fault = Fault();
@@ -481,6 +483,7 @@ struct PsHarness : Harness {
             for (size_t k = 0; k < calls.size(); ++k) {
                 const Access &a = calls[k];
                 { Fault f; f.at = (int64_t)k; f.kind = 1; faults.push_back(f); }
+                { Fault f; f.at = (int64_t)k; f.kind = 5; f.arg = (int64_t)(k & 1); faults.push_back(f); }
                 for (size_t m = 1; m < a.len; ++m) { Fault f; f.at = (int64_t)k; f.kind = 2; f.arg = (int64_t)m; faults.push_back(f); }
                 if (a.write) for (size_t t = 0; t <= a.len; ++t) { Fault f; f.at = (int64_t)k; f.kind = 4; f.arg = (int64_t)t; faults.push_back(f); }
                 else { Fault f; f.at = (int64_t)k; f.kind = 3; faults.push_back(f); }
@@ -501,8 +504,8 @@ struct PsHarness : Harness {
             W.med.fault = Fault();
             if (!R.returned && !R.crashed) { F("noprogress", "no return within the step budget under a single I/O fault"); continue; }
             if (!W.med.fault_fired) continue;   // the call index does not exist on this path
-            if (f.kind == 1 || f.kind == 2) {
-                if (R.rc != PERSISTENT_ACCESS_IO_ERROR) F("ioerror", "a %s medium call was reported as %s instead of IO_ERROR", f.kind == 1 ? "failing" : "short", acc_name(R.rc));
+            if (f.kind == 1 || f.kind == 2 || f.kind == 5) {
+                if (R.rc != PERSISTENT_ACCESS_IO_ERROR) F("ioerror", "a %s medium call was reported as %s instead of IO_ERROR", f.kind == 1 ? "failing" : (f.kind == 5 ? "failing (error sentinel / count beyond the request)" : "short"), acc_name(R.rc));
                 if (f.kind == 2 && (size_t)f.at + 1 == calls.size() && !calls[(size_t)f.at].write) COUNT("probe.short_read_in_last_call");
                 continue;
             }
